@@ -43,7 +43,7 @@ LEVEL_TEXT = ('Proof (partial): 26 Lean theorems about definitions regenerated f
               'no further hypothesis (85-piece interval cover of the saturation line + intermediate value theorem); on the last 0.046 K the '
               '_partial versions carry the branch inequalities as hypotheses; the critical-end failure of the inverse is PROVED '
               '(sat(tcritical) > pcritical in exact arithmetic); visc > 0 for every density and t >= 0; b23t(b23p t) - t in [0, 1e-9] K and |b23p(b23t p) - p| <= 1e-4 Pa on '
-              '350..590 degC.  density strictly increasing in pressure is PROVED for region 2 on six boxes up to 10 MPa (_partial).  Region 1 (cowat): density positive and strictly increasing in pressure is PROVED on sixteen boxes (density_monotone_r1_partial): every pressure 0..100 MPa for 0 <= t <= 230 degC; for five slabs between 230 and 250 degC from a limit below the saturation pressure of the cold end of the slab (2.0, 3.0, 3.3, 3.5, 3.7 MPa) up to 100 MPa (pressure intervals chained); and for each 10-degree slab from 250 to 350 degC from a stated lower pressure (14.5 MPa at 250-260 ... 50 MPa at 340-350 degC) up to 100 MPa (termwise corner bounds of gamma_pi and of its difference quotient over the generated 34-row table, norm_num).  Hence for any two states the classifier puts in region 1 at t <= 230 degC the density is strictly larger at the higher pressure, with no box hypothesis (density_monotone_region1_partial).  NOT proved, sampled by the oracle only: density monotone in pressure in region 1 above 250 degC between the saturation pressure and the stated lower limits (the terms I=29..32 cancel there and termwise bounds fail even on tiny boxes; that the 230..250 degC limits lie below the saturation line is a numerical fact, not a theorem), in the rest of region 2 and in region 3; agreement across region boundaries '
+              '350..590 degC.  density strictly increasing in pressure is PROVED for region 2 on six boxes up to 10 MPa (_partial).  Region 1 (cowat): density positive and strictly increasing in pressure is PROVED on sixteen boxes (density_monotone_r1_partial): every pressure 0..100 MPa for 0 <= t <= 230 degC; for five slabs between 230 and 250 degC from a limit (2.0, 2.5, 3.0, 3.0, 3.3 MPa) PROVED to lie below the saturation pressure on the whole slab (interval enclosure of sat) up to 100 MPa (pressure intervals chained); and for each 10-degree slab from 250 to 350 degC from a stated lower pressure (14.5 MPa at 250-260 ... 50 MPa at 340-350 degC) up to 100 MPa (termwise corner bounds of gamma_pi and of its difference quotient over the generated 34-row table, norm_num).  Hence for any two states the classifier puts in region 1 at t <= 250 degC the density is strictly larger at the higher pressure, with no box hypothesis (density_monotone_region1_partial; non-vacuity shown on concrete classified states at 100 and 248 degC).  NOT proved, sampled by the oracle only: density monotone in pressure in region 1 above 250 degC between the saturation pressure and the stated lower limits (the terms I=29..32 cancel there and termwise bounds fail even on tiny boxes), in the rest of region 2 and in region 3; agreement across region boundaries '
               'within the IAPWS-IF97 tolerances.  Tie: AST translator + bit-for-bit Float validation '
               '(16k requests / seed, 0 disagreements) + power_array vs hand model.')
 LEVEL_NOTE = ('Trusted: Lean kernel (+propext, Classical.choice, Quot.sound); the translator for the step Float tree -> real tree (the same '
